@@ -118,6 +118,30 @@ theorem C20_align_replace_orthonormal {n : ℕ} (a : Fin n → E) (ha : LinearIn
   rw [normalize_pos_smul (a i) c hc] at this
   exact this
 
+/-- normalising a negative multiple gives the opposite of the normalised vector -/
+theorem normalize_neg_smul (x : E) (c : ℝ) (hc : c < 0) :
+    (‖c • x‖)⁻¹ • (c • x) = -((‖x‖)⁻¹ • x) := by
+  have h : c • x = (-c) • (-x) := by simp
+  rw [h, normalize_pos_smul (-x) (-c) (by linarith), norm_neg, smul_neg]
+
+/-- **C20 / C12, anti-parallel alignment (repair da2d5c8).** With the alignment vector a *negative*
+multiple of column `i` (the design direction of a limit state that grows with one variable only),
+Gram–Schmidt on `v :: (all columns except a_i)` still returns `n` orthonormal vectors; the first one is
+the opposite of the normalised column. -/
+theorem C20_align_replace_orthonormal_neg {n : ℕ} (a : Fin n → E) (ha : LinearIndependent ℝ a)
+    (i : Fin n) (c : ℝ) (hc : c < 0) :
+    let l : List E := (c • a i) :: ((List.finRange n).filter (· ≠ i)).map a
+    (mgs l).length = n ∧
+      Orthonormal ℝ (fun k : Fin (mgs l).length => (mgs l).get k) ∧
+      (mgs l).head? = some (-((‖a i‖)⁻¹ • a i)) := by
+  intro l
+  obtain ⟨hli, hlen⟩ := C20_align_replace_independent a ha i c hc.ne
+  obtain ⟨h1, h2, -⟩ := C20_gramSchmidt_orthonormal l hli
+  refine ⟨by rw [h1]; exact hlen, h2, ?_⟩
+  have := C20_gramSchmidt_first (c • a i) (((List.finRange n).filter (· ≠ i)).map a)
+  rw [normalize_neg_smul (a i) c hc] at this
+  exact this
+
 end Align
 
 end FF
